@@ -10,8 +10,12 @@ import (
 	"encoding/json"
 	"fmt"
 	"io"
+	"log"
 	"net"
 	"net/http"
+	"net/http/httptest"
+	"net/http/httputil"
+	"net/url"
 	"os"
 	"runtime"
 	"strings"
@@ -243,9 +247,11 @@ func startActive(hb time.Duration) (*activeSide, string, error) {
 // ---- generated histories -------------------------------------------------------
 
 type e2ePhase struct {
-	Kind    string // up | burst | down | restart | race | halfopen
+	Kind    string // up | burst | down | restart | race | halfopen | fault
 	Changes []achg
-	PauseUS int // race only: pause between changes, so that they spread over the standby's reconnect (schedule perturbation, not an oracle)
+	PauseUS int      // race only: pause between changes, so that they spread over the standby's reconnect (schedule perturbation, not an oracle)
+	Faults  faultSet // fault only: what the standby's requests run into when it comes back
+	Restart bool     // fault only: the standby comes back as a restarted process (empty table) instead of over a restored link
 }
 
 type e2eCase struct {
@@ -279,6 +285,13 @@ func genE2ECase(kinds []string) *rapid.Generator[e2eCase] {
 			if k == "race" {
 				ph.PauseUS = rapid.SampledFrom([]int{0, 50, 200, 500, 1500}).Draw(t, "pauseUS")
 			}
+			if k == "fault" {
+				ph.Faults = genFaultSet().Draw(t, "faults")
+				if !ph.Faults.any() {
+					ph.Faults.Snap = []int{rapid.SampledFrom(snapOutcomes).Draw(t, "snapshotFault")}
+				}
+				ph.Restart = rapid.IntRange(0, 9).Draw(t, "restart") < 4
+			}
 			c.Phases = append(c.Phases, ph)
 		}
 		return c
@@ -291,7 +304,7 @@ func TestPropE2ECut(t *testing.T) {
 	vstat.Checks(90, 2500)
 	rapid.Check(t, func(rt *rapid.T) {
 		skipIfInconclusive(rt)
-		runE2ECase(rt, genE2ECase([]string{"up", "up", "down", "down", "race", "burst", "halfopen"}).Draw(rt, "case"))
+		runE2ECase(rt, genE2ECase([]string{"up", "up", "down", "down", "race", "burst", "halfopen", "fault", "fault"}).Draw(rt, "case"))
 	})
 	leakCheck(t, base)
 }
@@ -302,7 +315,7 @@ func TestPropE2ERestart(t *testing.T) {
 	vstat.Checks(90, 2500)
 	rapid.Check(t, func(rt *rapid.T) {
 		skipIfInconclusive(rt)
-		runE2ECase(rt, genE2ECase([]string{"up", "restart", "restart", "down", "race", "halfopen"}).Draw(rt, "case"))
+		runE2ECase(rt, genE2ECase([]string{"up", "restart", "restart", "down", "race", "halfopen", "fault"}).Draw(rt, "case"))
 	})
 	leakCheck(t, base)
 }
@@ -322,8 +335,34 @@ func runE2ECase(t fataler, c e2eCase) {
 		skip()
 		return
 	}
-	fw, err := newForwarder(addr)
+	// A case with a fault phase puts an HTTP proxy the harness owns between the forwarder and the active
+	// (standby -> forwarder -> fault proxy -> active): it answers each request with the outcome armed for its
+	// class (fault_test.go) and otherwise relays to the real active, streaming.
+	target := addr
+	plan := &faultPlan{}
+	var proxySrv *httptest.Server
+	var proxyTr *http.Transport
+	for _, ph := range c.Phases {
+		if ph.Kind == "fault" && proxySrv == nil {
+			u, _ := url.Parse("http://" + addr)
+			proxyTr = &http.Transport{MaxIdleConnsPerHost: 4}
+			rp := &httputil.ReverseProxy{
+				Rewrite:       func(pr *httputil.ProxyRequest) { pr.SetURL(u) },
+				FlushInterval: -1,
+				Transport:     proxyTr,
+				ErrorLog:      log.New(io.Discard, "", 0),
+				ErrorHandler:  func(w http.ResponseWriter, _ *http.Request, _ error) { w.WriteHeader(http.StatusBadGateway) },
+			}
+			proxySrv = newLoopbackServer(faultyHandler{inner: rp, plan: plan})
+			target = proxySrv.Listener.Addr().String()
+			cls["transport:via-fault-proxy"] = true
+		}
+	}
+	fw, err := newForwarder(target)
 	if err != nil {
+		if proxySrv != nil {
+			proxySrv.Close()
+		}
 		act.syn.Stop()
 		setInconclusive("forwarder: %v", err)
 		skip()
@@ -334,6 +373,11 @@ func runE2ECase(t fataler, c e2eCase) {
 	defer func() {
 		sb.Stop()
 		fw.close()
+		if proxySrv != nil {
+			proxySrv.CloseClientConnections()
+			proxySrv.Close()
+			proxyTr.CloseIdleConnections()
+		}
 		act.syn.Stop()
 	}()
 
@@ -579,6 +623,77 @@ func runE2ECase(t fataler, c e2eCase) {
 			compare(what+" immediately after restart", func(tdiff) string { return sigE2EDiverged })
 			if !dead && quiesce() {
 				compare(what, func(tdiff) string { return sigE2EDiverged })
+			}
+		case "fault":
+			// the standby loses the link (or is restarted), the active moves on, and when the standby comes back
+			// its requests run into the armed faults: it has to retry until a whole connection attempt (stream
+			// attach + snapshot) succeeds.  Nothing is asserted while it is not connected; once it reports the
+			// link up and the active is quiet the tables must be equal.
+			lastLink = "after-faulty-reconnect"
+			if ph.Restart {
+				hist = append(hist, "standby-stop")
+				sb.Stop()
+			} else {
+				hist = append(hist, "cut+down")
+				fw.cut(true)
+				if !pollUntil(func() bool { return !sb.Stats().Connected }) {
+					inconclusive("standby still reports connected %v after its connections were closed", waitTimeout)
+					break
+				}
+			}
+			do("link-down", ph.Changes, !ph.Restart)
+			if !activeDrained() {
+				break
+			}
+			plan.arm(ph.Faults)
+			arm := "arm-faults:"
+			for _, o := range ph.Faults.Stream {
+				arm += " stream=" + foName(o)
+				cls["fault:stream:"+foName(o)] = true
+			}
+			for _, o := range ph.Faults.Snap {
+				arm += " snapshot=" + foName(o)
+				cls["fault:snapshot:"+foName(o)] = true
+			}
+			hist = append(hist, arm)
+			if ph.Restart {
+				sbStore = ha.NewInMemorySessionStore()
+				hist = append(hist, "standby-start")
+				sb = startStandby(fw.addr(), sbStore)
+				cls["fault:standby-restarted"] = true
+			} else {
+				hist = append(hist, "restore")
+				fw.restore()
+			}
+			// (a standby answered with an HTML page for its stream reports connected for the instant it takes to read
+			// the page to its end: "connected" counts once no stream fault is left to be served; a bounce after that
+			// is handled by quiesce, which accepts only a sentinel that came through a stable stream)
+			if !pollUntil(func() bool { return sb.Stats().Connected && plan.pendingStream() == 0 }) {
+				inconclusive("standby did not report connected within %v of the faulty reconnect (last error %q)", waitTimeout, sb.Stats().LastError)
+				break
+			}
+			quiet := quiesce()
+			applied, lastSnapFault, pending := plan.state()
+			plan.arm(faultSet{}) // faults belong to this phase's reconnection only
+			snapFaulted := false
+			for _, a := range applied {
+				if strings.HasPrefix(a, clsSnap+":") && !strings.HasSuffix(a, foName(foDelay)) {
+					snapFaulted = true
+				}
+			}
+			if snapFaulted {
+				cls["fault:link-up-after-snapshot-fault"] = true
+			}
+			if pending > 0 {
+				cls["fault:connected-with-faults-unserved"] = true
+			}
+			if quiet {
+				compare(fmt.Sprintf("%s (faults served: %v; the last snapshot request was failed: %v)", what, applied, lastSnapFault), func(tdiff) string {
+					if snapFaulted {
+						return sigAfterSnapFault
+					}
+					return sigE2EDiverged
+				})
 			}
 		case "halfopen":
 			// the standby's connection dies in a way the active does not notice (the forwarder closes the
